@@ -50,7 +50,7 @@ func (g *gen) valueEdit(c *sqlh.ColDesc, v sqlh.GV) sqlh.GV {
 	case 2:
 		if v.T != "ptr" && v.T != "nil" && v.T != "nilptr" && v.T != "nilbytes" {
 			e := v
-			return sqlh.GV{T: "ptr", Addr: g.NewAddr() + 1000, Elem: &e}
+			return sqlh.GV{T: "ptr", Addr: g.NewAddr(), Elem: &e}
 		}
 		return g.Retype(v)
 	case 3:
@@ -128,7 +128,7 @@ func (g *gen) editRow(t *sqlh.TableDesc, r sqlh.Row, limits []sqlh.Filter) sqlh.
 	default:
 		if out[i].T == "ptr" {
 			e := g.Other(*out[i].Elem)
-			out[i] = sqlh.GV{T: "ptr", Addr: g.NewAddr() + 1000, Elem: &e}
+			out[i] = sqlh.GV{T: "ptr", Addr: g.NewAddr(), Elem: &e}
 		} else if out[i].T != "nilptr" && out[i].T != "nilbytes" {
 			out[i] = g.Other(out[i])
 		} else {
@@ -318,7 +318,8 @@ func searchCases(o *vh.Opts, r *vh.Rng) []Case {
 	}
 	var cases []Case
 	for i := 0; i < o.N; i++ {
-		g := &gen{&sqlh.Gen{R: r.Fork()}}
+		// pointer addresses of the edits must not collide with those of the seed (one pointee per address)
+		g := &gen{&sqlh.Gen{R: r.Fork(), Addr: 100000}}
 		if len(seeds) == 0 {
 			c := g.genCase()
 			c.Origin = "search-fresh"
